@@ -58,6 +58,9 @@ struct Net {
             auto rk = [&](const Wire &x) { const char *k = inclass(x); return !strcmp(k, "inj") ? 3 : !strcmp(k, "deep") ? 2 : !strcmp(k, "shallow") ? 1 : 0; };
             rank = rk(w[a]); if (b >= 0 && rk(w[b]) > rank) rank = rk(w[b]); if (c >= 0 && rk(w[c]) > rank) rank = rk(w[c]);
             cls = names[rank];
+            // one ciphertext object in two or three operand roles: judged as a class of its own (its output is a bootstrapped
+            // gate output like any other)
+            if ((b >= 0 && w[a].ct == w[b].ct) || (c >= 0 && (w[a].ct == w[c].ct || w[b].ct == w[c].ct))) cls = std::string("shared-") + names[rank];
             if (g != G_MUX) zmask = zero_mask(g, a, b, c);
             else zmask = w[a].trivial_mask && w[b].trivial_mask && w[c].trivial_mask;
             // MUX with partially trivial operands runs one or two rotations on a zero mask: keep those apart as well
@@ -184,12 +187,22 @@ static void class_probe(Net &N, int count) {
     }
 }
 
+// the same ciphertext object in several operand roles of one gate, with fresh and with maximally noisy admissible inputs
+static void shared_operands(Net &N, int count) {
+    for (int i = 0; i < count; i++) {
+        int x = (i & 1) ? N.hostile(rng.below(2)) : N.input(rng.below(2)), a = (i & 2) ? N.hostile(rng.below(2)) : N.input(rng.below(2));
+        N.gate(G_MUX, a, x, x); N.gate(G_MUX, a, a, x); N.gate(G_MUX, a, x, a); N.gate(G_MUX, x, x, x);
+        for (int r = 0; r < 3; r++) N.gate(rnd_bin_gate(), x, x);
+    }
+}
+
 int main(int argc, char **argv) {
     Args args(argc, argv);
     out.open(args.s("out", "-"));
     install_crash_handler();
     uint64_t seed = args.i("seed", 1);
     int lambda = args.i("lambda", 128), budget = args.i("gates", 1500), shard = args.i("shard", 0);
+    if (args.i("prelude", 0)) { rng.reseed(seed * 4241 + 3); seed_library(seed * 4243 + 5); history_other_parameter_set(rng); }
     rng.reseed(seed * 1000003ull + lambda + shard * 7919);
     seed_library(seed * 131 + lambda + shard);
     if (args.s("mode", "netlists") == "keybias") {
@@ -250,7 +263,8 @@ int main(int argc, char **argv) {
     while ((int) (out.evaluations - start) < budget) {
         int left = budget - (int) (out.evaluations - start);
         const char *fname = "";
-        switch (family++ % 8) {
+        switch (family++ % 9) {
+            case 8: fname = "shared-operand-objects"; shared_operands(N, left < 140 ? left / 7 + 1 : 20); break;
             case 0: fname = "random-dag"; random_dag(N, 12, left < 300 ? left : 300); break;
             case 1: fname = "nand-chain-inplace"; nand_chain_inplace(N, left < 200 ? left : 200); break;
             case 2: fname = "balanced-tree"; balanced_tree(N, 32, rnd_bin_gate()); break;
